@@ -20,7 +20,8 @@ def values_for(name, n, flavour):
     if flavour == "int":
         return [10 * (i + 1) for i in range(n)]
     if flavour == "float":
-        return [0.25 + i for i in range(n)]
+        # floats that need all 17 significant digits (1/3, 4/3, ...): the function must get exactly the value given
+        return [i + 1.0 / 3.0 for i in range(n)]
     if flavour == "str":
         return ["s%s%02d" % (name, i) for i in range(n)]
     if flavour == "mixed":
